@@ -33,7 +33,7 @@ StepRc(s0, e) ==
   LET s == IF e.e \in {"twd", "bfree"} THEN s0 ELSE Leave(s0, e) IN
   CASE e.e = "reset" -> [FreshRc EXCEPT !.run = e.run, !.exact = IF "exact" \in DOMAIN e THEN e.exact ELSE TRUE]
     [] e.e = "balloc" ->
-         [s EXCEPT !.blk = (e.b :> [live |-> TRUE, cap |-> e.cap, cnt |-> 1, incs |-> 0, decs |-> 0, final |-> -1, frees |-> 0]) @@ @]
+         [s EXCEPT !.blk = (e.b :> [live |-> TRUE, cap |-> e.cap, cnt |-> 1, incs |-> 0, decs |-> 0, final |-> -1, frees |-> 0, q |-> {}]) @@ @]
     [] e.e = "vt" ->
          LET s1 == Chk(s, Live(s, e.b), "a child waker was used after its block had been released (use after free)")
              s2 == Chk(s1, e.hb = e.b, "a child waker resolved to the wrong shared header")
@@ -62,9 +62,17 @@ StepRc(s0, e) ==
                          EXCEPT !.inreg = @ \ {e.t}]
     [] e.e \in {"wswap", "wenq", "wnotified", "wdone", "pop", "popclr", "pswap", "penq", "ins", "vac"} ->
          LET s1 == Chk(s, Live(s, e.b), "the shared block was used after it had been released (use after free), or an unknown block was used")
-         IN IF Known(s, e.b) /\ "i" \in DOMAIN e
-            THEN Chk(s1, e.i >= 0 /\ e.i < s.blk[e.b].cap, "a slot outside the waker block was used (the block has fewer slots than the collection hands out)")
-            ELSE s1
+             s2 == IF Known(s, e.b) /\ "i" \in DOMAIN e
+                   THEN Chk(s1, e.i >= 0 /\ e.i < s.blk[e.b].cap, "a slot outside the waker block was used (the block has fewer slots than the collection hands out)")
+                   ELSE s1
+         \* the ready queue is an intrusive list: a slot is linked at most once at a time (exact order of events only)
+         IN IF ~Known(s, e.b) \/ ~s.exact \/ "i" \notin DOMAIN e THEN s2
+            ELSE IF e.e \in {"penq", "wenq"}
+                 THEN [Chk(s2, e.i \notin s.blk[e.b].q,
+                           "a slot was linked into the ready queue while it was linked already (intrusive node in two positions: corrupted list, racing link writes)")
+                        EXCEPT !.blk[e.b].q = @ \cup {e.i}]
+            ELSE IF e.e = "pop" THEN [s2 EXCEPT !.blk[e.b].q = @ \ {e.i}]
+            ELSE s2
     [] e.e = "regb" -> [Chk(s, Live(s, e.b), "the shared block was used after it had been released (use after free), or an unknown block was used")
                          EXCEPT !.inreg = @ \cup {e.t}]
     [] e.e = "twc" -> [s EXCEPT !.twc = @ + 1]
